@@ -169,6 +169,10 @@ def _many_fixed():
         ([("add", N(0), C(1)), ("mul", N(0), C(2)), ("add", N(3), N(2))], [2, 3, 4], "concat"),
         ([("add", N(0), N(1)), ("mul", N(2), N(0))], [3, 0, 2], "concat"),
         ([("sub", N(1), N(0))], [2], "concat"),
+        # boolean-mask indexing of a node by a node, comparisons
+        ([("add", N(0), C(0)), ("gt", N(0), C(2)), ("sel", N(2), N(3))], [4], "concat"),
+        ([("add", N(0), N(1)), ("gt", N(1), N(2)), ("sel", N(2), N(3)), ("gt", N(0), C(4))], [4, 5, 2], "concat"),
+        ([("mul", N(0), C(2)), ("gt", C(5), N(0)), ("sel", N(2), N(3))], [4], "concat"),
     ]
 
 
@@ -318,11 +322,17 @@ def cases(tier, rng):
                 b = {"node": rng.randrange(i)} if rng.random() < 0.6 else {"const": rng.randrange(-3, 4)}
                 if rng.random() < 0.3:
                     a, b = b, a
-                nodes.append({"k": "comp", "f": rng.choice(["add", "sub", "mul"]), "a": a, "b": b})
+                nodes.append({"k": "comp", "f": rng.choice(["add", "sub", "mul", "gt"]), "a": a, "b": b})
             if rng.random() < 0.5:
                 yield {"op": "graph", "nodes": nodes, "root": rng.randrange(len(nodes)) if rng.random() < 0.4 else len(nodes) - 1}
             elif rng.random() < 0.5:
+                comps = [i for i, nd in enumerate(nodes) if nd["k"] == "comp"]
+                if rng.random() < 0.5:                       # index a computed node by a comparison of another
+                    nodes.append({"k": "comp", "f": "gt", "a": {"node": rng.randrange(len(nodes))}, "b": {"const": rng.randrange(-2, 5)}})
+                    nodes.append({"k": "comp", "f": "sel", "a": {"node": rng.choice(comps)}, "b": {"node": len(nodes) - 1}})
                 roots = [rng.randrange(len(nodes)) for _ in range(rng.randrange(1, 4))]
+                if nodes[-1]["f"] == "sel":
+                    roots[0] = len(nodes) - 1
                 yield {"op": "graph_many", "nodes": nodes, "roots": roots, "mode": "concat"}
             else:
                 ew = len(nodes)
@@ -357,8 +367,9 @@ def cases(tier, rng):
                 s = rng.randrange(0, sizes[ci])
                 peaks.append([ci, s, rng.randrange(s + 1, sizes[ci] + 1)])
         kind = rng.choice(["pileup_hist", "pileup_sum", "mask_sum", "under", "under_mean", "merged", "pileup_data",
-                           "under_stranded", "under_stranded", "under_stranded_mean"])
-        if kind in ("under", "under_mean", "under_stranded") and not peaks:
+                           "under_stranded", "under_stranded", "under_stranded_mean",
+                           "track_ufunc_sum", "under_max", "merge_map", "bedgraph_sum", "extended", "track_bool_index"])
+        if kind in ("under", "under_mean", "under_stranded", "under_max") and not peaks:
             peaks = [[0, 0, sizes[0]]]
         if kind == "under_stranded_mean":            # windows of one common size, as `track[windows].mean(axis=0)` needs
             w = rng.randrange(1, min(sizes) + 1)
@@ -371,6 +382,16 @@ def cases(tier, rng):
                 peaks = [[0, 0, w]]
         if kind.startswith("under_stranded"):         # strand 1 = '+', 0 = '-', 2 = '.' (neither)
             peaks = [p + [rng.choice([1, 0, 2, 2])] for p in peaks]
+        if kind == "bedgraph_sum":            # a bedgraph covering every chromosome: runs of a random dense track
+            rows = []
+            for ci in range(nchrom):
+                pos = 0
+                while pos < sizes[ci]:
+                    e = min(sizes[ci], pos + rng.randrange(1, 5))
+                    rows.append([ci, pos, e, rng.randrange(0, 4)])
+                    pos = e
+        if kind == "extended":                # stranded entries: 1 = '+', 0 = '-'
+            rows = [r + [rng.choice([1, 0])] for r in rows]
         mask = rng.getrandbits(len(rows) - 1) if len(rows) > 1 else 0
         yield {"op": "pipeline", "kind": kind, "sizes": sizes, "chunks": _cut(rows, mask), "peaks": sorted(peaks),
                "bins": rng.randrange(1, 5)}
@@ -510,7 +531,7 @@ def _graph_build(m, nodes):
             pulls[slot] += 1
             yield np.array(ch, dtype=int)
 
-    uf = {"add": np.add, "sub": np.subtract, "mul": np.multiply}
+    uf = {"add": np.add, "sub": np.subtract, "mul": np.multiply, "gt": np.greater}
     for nd in nodes:
         if nd["k"] == "stream":
             pulls.append(0)
@@ -524,6 +545,8 @@ def _graph_build(m, nodes):
                 built.append(np.mean(a))
             elif nd["f"] == "hist":
                 built.append(np.histogram(a, bins=list(nd["edges"])))
+            elif nd["f"] == "sel":
+                built.append(a[b])                       # ComputationNode.__getitem__ with a boolean node
             else:
                 built.append(uf[nd["f"]](a, b))
     return built, pulls
@@ -553,6 +576,32 @@ def _pipeline(m, c, streamed):
     sizes = {"chr%d" % (i + 1): s for i, s in enumerate(c["sizes"])}
     genome = bnp.Genome.from_dict(sizes)
     rows = [r for ch in c["chunks"] for r in ch]
+    kind = c["kind"]
+    if kind == "bedgraph_sum":
+        from bionumpy.datatypes import BedGraph
+        bg = lambda rs: BedGraph(["chr%d" % (r[0] + 1) for r in rs], [r[1] for r in rs], [r[2] for r in rs], [r[3] for r in rs])
+        if streamed:
+            tr = genome.get_track(m["NpDataclassStream"]((bg(ch) for ch in c["chunks"]), dataclass=BedGraph))
+            return int(cg.compute(np.sum(tr)))
+        return int(genome.get_track(bg(rows)).sum())
+    if kind == "extended":
+        from bionumpy.datatypes import StrandedInterval
+        if streamed:
+            src = m["NpDataclassStream"]((_stranded_table(m, ch) for ch in c["chunks"]), dataclass=StrandedInterval)
+            r = genome.get_intervals(src, stranded=True).extended_to_size(c["bins"] + 1).compute()
+        else:
+            r = genome.get_intervals(_stranded_table(m, rows), stranded=True).extended_to_size(c["bins"] + 1)
+        return [[ch, int(s_), int(e_)] for ch, s_, e_ in zip(_chroms(r.chromosome), r.start.tolist(), r.stop.tolist())]
+    if kind == "merge_map":
+        from bionumpy.arithmetics.intervals import merge_intervals
+        if streamed:
+            src = m["NpDataclassStream"]((_interval_table(m, ch) for ch in c["chunks"]), dataclass=m["Interval"])
+        else:
+            src = _interval_table(m, rows)
+        out = []
+        for key, g in merge_intervals(bnp.groupby(src, "chromosome")):      # chromosome_map over the grouped stream
+            out += [[int(str(key)[3:]) - 1, int(s_), int(e_)] for s_, e_ in zip(g.start.tolist(), g.stop.tolist())]
+        return out
     if streamed:
         vm = _vmode(c)
         parts = [_interval_table(m, ch) for ch in c["chunks"]] if vm == 0 else \
@@ -562,7 +611,14 @@ def _pipeline(m, c, streamed):
         src = _interval_table(m, rows)
     gi = genome.get_intervals(src)
     fin = (lambda x: cg.compute(x)) if streamed else (lambda x: x)
-    kind = c["kind"]
+    if kind == "track_ufunc_sum":
+        return int(fin((gi.get_pileup() * 2 + 1).sum()))
+    if kind == "track_bool_index":
+        p_ = gi.get_pileup()
+        return [int(x) for x in np.asarray(fin(p_[p_ > 1])).ravel()]
+    if kind == "under_max":
+        peaks = genome.get_intervals(_interval_table(m, c["peaks"]))
+        return [int(x) for x in np.asarray(fin(np.max(gi.get_pileup()[peaks], axis=-1))).ravel()]
     if kind == "pileup_hist":
         h = np.histogram(gi.get_pileup(), bins=c["bins"], range=(0, c["bins"]))
         h = fin(h)
@@ -690,7 +746,16 @@ def impl(c):
             roots = [built[r] for r in c["roots"]]
             fs = [c["nodes"][r].get("f") for r in c["roots"]]
             if c["mode"] == "concat":
-                res = cg.compute(list(roots))
+                how = _vmode(c["nodes"][0]) % 3
+                if how == 0:
+                    res = cg.compute(list(roots))
+                elif how == 1:                               # a dict of nodes
+                    res = list(cg.compute({"k%d" % i: r for i, r in enumerate(roots)}).values())
+                else:                                        # non-node values are passed through untouched
+                    res = cg.compute(list(roots) + [5, "x"])
+                    if list(res[len(roots):]) != [5, "x"]:
+                        return {"v": {"vals": None, "passthrough": [str(x) for x in res[len(roots):]]}}
+                    res = res[:len(roots)]
                 return {"v": {"vals": [[int(x) for x in np.asarray(v).ravel()] for v in res]}}
             res = [roots[0].compute()] if len(roots) == 1 else list(cg.compute(tuple(roots)))
             out = []
@@ -751,7 +816,7 @@ def _hist(data, edges):
 
 def _dense_pileup(c):
     dense = [[0] * s for s in c["sizes"]]
-    for ci, s, e in _flat(c["chunks"]):
+    for ci, s, e in [r[:3] for r in _flat(c["chunks"])]:
         for p in range(s, e):
             dense[ci][p] += 1
     return dense
@@ -824,7 +889,8 @@ def oracle(c):
             if nd["k"] == "stream":
                 vals.append(_flat(nd["chunks"]))
             else:
-                f = {"add": lambda x, y: x + y, "sub": lambda x, y: x - y, "mul": lambda x, y: x * y}[nd["f"]]
+                f = {"add": lambda x, y: x + y, "sub": lambda x, y: x - y, "mul": lambda x, y: x * y,
+                     "gt": lambda x, y: 1 if x > y else 0}[nd["f"]]
                 a = vals[nd["a"]["node"]] if "node" in nd["a"] else nd["a"]["const"]
                 b = vals[nd["b"]["node"]] if "node" in nd["b"] else nd["b"]["const"]
                 if isinstance(a, list) and isinstance(b, list):
@@ -848,7 +914,11 @@ def oracle(c):
                 x = a if isinstance(a, list) else [a]
                 vals.append([sum(x)] if nd["f"] == "sum" else [sum(x), len(x)] if nd["f"] == "sumN" else _hist(x, nd["edges"]))
                 continue
-            f = {"add": lambda x, y: x + y, "sub": lambda x, y: x - y, "mul": lambda x, y: x * y}[nd["f"]]
+            if nd["f"] == "sel":
+                vals.append([x for x, mk_ in zip(a, b) if mk_])
+                continue
+            f = {"add": lambda x, y: x + y, "sub": lambda x, y: x - y, "mul": lambda x, y: x * y,
+                 "gt": lambda x, y: 1 if x > y else 0}[nd["f"]]
             if isinstance(a, list) and isinstance(b, list):
                 vals.append([f(x, y) for x, y in zip(a, b)])
             elif isinstance(a, list):
@@ -868,9 +938,26 @@ def oracle(c):
         return h if r == "hist" else [h, sum(data)]
     if op == "graph_multi":
         return [[v + 1 for v in data], [2 * v for v in data], [3 * v + 1 for v in data]]
+    if op == "pipeline" and c["kind"] == "bedgraph_sum":
+        return sum((e - s_) * v for _, s_, e, v in data)
+    if op == "pipeline" and c["kind"] == "extended":
+        k = c["bins"] + 1
+        out = []
+        for ci, s_, e, f in data:
+            a, b = (s_, s_ + k) if f == 1 else (e - k, e)
+            out.append([ci, max(a, 0), min(b, c["sizes"][ci])])
+        return out
     if op == "pipeline":
         dense = _dense_pileup(c)
         kind = c["kind"]
+        if kind == "track_ufunc_sum":
+            return sum(2 * v + 1 for v in _flat(dense))
+        if kind == "track_bool_index":
+            return [v for v in _flat(dense) if v > 1]
+        if kind == "under_max":
+            return [max(dense[ci][s_:e]) for ci, s_, e in c["peaks"]]
+        if kind == "merge_map":
+            kind = "merged"
         if kind == "pileup_hist":
             edges = list(range(c["bins"] + 1))
             return {"hist": _hist(_flat(dense), edges), "edges": edges}
@@ -1024,6 +1111,8 @@ def finding_key(c, got, exp):
         return "graph:" + c["mode"] + ("-raises-" + got["err"] if isinstance(got, dict) and "err" in got else "-wrong-value")
     if op == "graph" and c["nodes"][c["root"]]["k"] == "stream":
         return "graph:root-is-stream"
+    if op == "pipeline":
+        return "pipeline:" + c["kind"]
     if isinstance(got, dict) and "err" in got:
         if op == "graph":
             return "graph:raises-" + got["err"]
